@@ -307,7 +307,7 @@ theorem xkeyOrd_eqv (a b : XKey) : xkeyOrd.eqv a b = true ↔ a = b := by simp [
 /-- acceptance is monotone along `sub`, and every key that accepts a value accepts the exact key of its kind -/
 theorem XKey.accepts_mono_all : allXKeys.all (fun a => allXKeys.all (fun b =>
     [XKind.int, .float, .str, .bool, .undef, .dflt, .bin, .regexp, .arr, .hash, .semver, .semverRange, .uri, .tspan, .tstamp,
-      .sensitive, .typ, .obj].all (fun k => !(XKey.sub a b && b.accepts k) || a.accepts k))) = true := by decide +kernel
+      .sensitive, .typ, .obj, .talias, .otype].all (fun k => !(XKey.sub a b && b.accepts k) || a.accepts k))) = true := by decide +kernel
 
 theorem XKey.accepts_sub_exact (a : XKey) (k : XKind) : a.accepts k = true → XKey.sub a k.key = true := by
   cases a with
